@@ -30,8 +30,8 @@ Proof. vm_compute. reflexivity. Qed.
 
 (* where polynomial_from_attributes takes the dtype from *)
 Lemma bridge_from_attributes_dtype :
-  gen_fa_dtype_from_first = true /\
-  (forall q nk s0 v0 rest, p_dtype (from_attributes q None nk ((s0, v0) :: rest)) = s0) /\
+  gen_fa_dtype_from_first = false /\
+  (forall q nk s0 v0 rest, p_dtype (from_attributes q None nk ((s0, v0) :: rest)) = common_dtype s0 (map fst rest)) /\
   (forall q nk d coeffs, p_dtype (from_attributes q (Some d) nk coeffs) = d) /\
   (forall q nk, p_dtype (from_attributes q None nk []) = gen_fa_empty_default).
 Proof.
